@@ -181,7 +181,7 @@ def interactive_world(r):
     col = r.choice(gen.COLORS[1:])
     pool = [gen.FLOOR] * 5 + [(T['Door'], 1, col, None), (T['Door'], 2, col, None), (T['Door'], 0, col, None), (T['Key'], 0, col, None),
                               (T['Box'], 0, 0, (T['Key'], 0, col, None)), (T['Box'], 0, 0, gen.FLOOR), gen.WALL, (T['MovingObstacle'], 0, 0, None),
-                              (T['Telepod'], 0, col, None), (T['Exit'], 0, 0, None)]
+                              (T['Telepod'], 0, col, None), (T['Exit'], 0, 0, None), (T['Exit'], 0, r.choice(gen.COLORS[1:]), None), (T['Beacon'], 0, r.choice(gen.COLORS[1:]), None)]
     g = tuple(tuple(r.choice(pool) for _ in range(w)) for _ in range(h))
     free = [(y, x) for y in range(h) for x in range(w) if g[y][x][0] in (T['Floor'], T['Exit'], T['Telepod']) or g[y][x] == (T['Door'], 0, col, None)]
     if not free:
